@@ -3,6 +3,7 @@
   of the presentation subset of `C23_records_partial`.
 -/
 import QV.Proofs.ZoneFile.Rdata
+import QV.Proofs.ZoneFile.Records
 
 namespace QV.ZF
 open QV QV.Spec.ZF
@@ -24,16 +25,21 @@ theorem validB_ok {cls ty : Nat} {rd : List UInt8} (h : validB cls ty rd = true)
 
 /-- well-formed presentation of a record (what the writer must respect) -/
 structure WFRecord (p : PRecord) : Prop where
-  sep_ne : p.sep ≠ []
-  sep_ws : ∀ x ∈ p.sep, isWs x = true
   owner_ok : ∀ n, p.owner = .named n → WFName n ∧ (nameText n).head? ≠ some 36
   ttl_ok : ∀ t, p.ttl = some t → t ≤ 4294967295
   cls_ok : ∀ c, p.cls = some c → WFClass c
   ty_ok : WFType p.ty ∧ p.ty.value ≠ 10 ∧ p.ty.value ≠ 41 ∧ p.ty.value ≠ 250
   rd_ok : WFRdata p.rdata
-  /-- the gaps before, inside and after the RDATA: parentheses balanced, line ends only inside
-      them (`S i`: inside parentheses before gap `i`) -/
-  gaps_ok : ∃ S : Nat → Bool, S 0 = false ∧
+  /-- the gaps: parentheses balanced, line ends only inside them.  `q1`, `q2`, `q3`: inside
+      parentheses after the gaps of the record's head (after the owner, after the first and the
+      second of TTL and class); `S i`: before the `i`-th gap of the RDATA part.  A record without
+      owner field begins with a blank. -/
+  gaps_ok : ∃ (q1 q2 q3 : Bool) (S : Nat → Bool),
+    GapOK (gapAt p.head 0) false q1 ∧
+    (p.owner = .same → ∃ t g, gapAt p.head 0 = .blank t :: g) ∧
+    (p.ttl.isSome = true ∨ p.cls.isSome = true → GapOK (gapAt p.head 1) q1 q2) ∧
+    (p.ttl.isSome = true → p.cls.isSome = true → GapOK (gapAt p.head 2) q2 q3) ∧
+    S 0 = tcEnd q1 q2 q3 p.ttl p.cls ∧
     (∀ i, i ≤ rdataGaps p.rdata → GapOK (gapAt p.gaps i) (S i) (S (i + 1))) ∧
     TailOK p.tail p.comment (S (rdataGaps p.rdata + 1))
 
@@ -74,23 +80,60 @@ theorem TailOK_of_B {g : PGap} {cmt : List UInt8} {p : Bool} (h : tailOKB g cmt 
   simp only [tailOKB, Bool.and_eq_true, beq_iff_eq] at h
   exact ⟨GapWF_of_B h.1.1, h.1.2, commentOK_of_B h.2⟩
 
-/-- "inside parentheses" before the `i`-th gap of a record's RDATA part -/
-def statesOf (gaps : List PGap) : Nat → Bool
+/-- "inside parentheses" before the `i`-th gap of a record's RDATA part, from the state `q` after
+    the head -/
+def statesOf (q : Bool) (gaps : List PGap) : Nat → Bool
+  | 0 => q
+  | i + 1 => (gapRun (statesOf q gaps i) (gapAt gaps i)).getD false
+
+def headState (p : PRecord) (i : Nat) : Bool :=
+  match i with
   | 0 => false
-  | i + 1 => (gapRun (statesOf gaps i) (gapAt gaps i)).getD false
+  | i + 1 => (gapRun (headState p i) (gapAt p.head i)).getD false
 
 /-- the gaps of a record are well formed: checked with the states computed -/
 def gapsOKB (p : PRecord) : Bool :=
-  ((List.range (rdataGaps p.rdata + 1)).all fun i =>
-    gapOKB (gapAt p.gaps i) (statesOf p.gaps i) (statesOf p.gaps (i + 1))) &&
-  tailOKB p.tail p.comment (statesOf p.gaps (rdataGaps p.rdata + 1))
+  let q1 := headState p 1
+  let q2 := headState p 2
+  let q3 := headState p 3
+  let S := statesOf (tcEnd q1 q2 q3 p.ttl p.cls) p.gaps
+  gapOKB (gapAt p.head 0) false q1 &&
+  (match p.owner with
+   | .same => (match gapAt p.head 0 with | .blank _ :: _ => true | _ => false)
+   | _ => true) &&
+  (!(p.ttl.isSome || p.cls.isSome) || gapOKB (gapAt p.head 1) q1 q2) &&
+  (!(p.ttl.isSome && p.cls.isSome) || gapOKB (gapAt p.head 2) q2 q3) &&
+  ((List.range (rdataGaps p.rdata + 1)).all fun i => gapOKB (gapAt p.gaps i) (S i) (S (i + 1))) &&
+  tailOKB p.tail p.comment (S (rdataGaps p.rdata + 1))
 
 theorem gaps_ok_of_B (p : PRecord) (h : gapsOKB p = true) :
-    ∃ S : Nat → Bool, S 0 = false ∧
+    ∃ (q1 q2 q3 : Bool) (S : Nat → Bool),
+      GapOK (gapAt p.head 0) false q1 ∧
+      (p.owner = .same → ∃ t g, gapAt p.head 0 = .blank t :: g) ∧
+      (p.ttl.isSome = true ∨ p.cls.isSome = true → GapOK (gapAt p.head 1) q1 q2) ∧
+      (p.ttl.isSome = true → p.cls.isSome = true → GapOK (gapAt p.head 2) q2 q3) ∧
+      S 0 = tcEnd q1 q2 q3 p.ttl p.cls ∧
       (∀ i, i ≤ rdataGaps p.rdata → GapOK (gapAt p.gaps i) (S i) (S (i + 1))) ∧
       TailOK p.tail p.comment (S (rdataGaps p.rdata + 1)) := by
-  simp only [gapsOKB, Bool.and_eq_true, List.all_eq_true, List.mem_range] at h
-  exact ⟨statesOf p.gaps, rfl, fun i hi => GapOK_of_B (h.1 i (by omega)), TailOK_of_B h.2⟩
+  simp only [gapsOKB, Bool.and_eq_true, Bool.or_eq_true, Bool.not_eq_true', List.all_eq_true, List.mem_range] at h
+  obtain ⟨⟨⟨⟨⟨h0, hsame⟩, hA⟩, hB⟩, hG⟩, hT⟩ := h
+  refine ⟨headState p 1, headState p 2, headState p 3,
+    statesOf (tcEnd (headState p 1) (headState p 2) (headState p 3) p.ttl p.cls) p.gaps,
+    GapOK_of_B h0, ?_, ?_, ?_, rfl, fun i hi => GapOK_of_B (hG i (by omega)), TailOK_of_B hT⟩
+  · intro ho
+    rw [ho] at hsame
+    simp only at hsame
+    split at hsame
+    · next t g heq => exact ⟨t, g, heq⟩
+    · cases hsame
+  · intro hor
+    rcases hA with hA | hA
+    · rcases hor with h1 | h1 <;> simp [h1] at hA
+    · exact GapOK_of_B hA
+  · intro h1 h2
+    rcases hB with hB | hB
+    · simp [h1, h2] at hB
+    · exact GapOK_of_B hB
 
 theorem dropWhile_ws (sep : List UInt8) (hsep : ∀ x ∈ sep, isWs x = true) (c : UInt8) (t : List UInt8)
     (hc : isWs c = false) : (sep ++ c :: t).dropWhile isWs = c :: t := by
@@ -117,7 +160,8 @@ def rdataPart (p : PRecord) (r : List UInt8) : List UInt8 :=
 theorem renderRecord_eq (p : PRecord) (r : List UInt8) :
     renderRecord p ++ r =
       ownerText p.owner ++
-        (p.sep ++ recordBody p.sep p.ttl ((clsPair p).map (·.1)) p.clsFirst (typeText p.ty) (rdataPart p r)) := by
+        (gapText (gapAt p.head 0) ++ recordBody (gapText (gapAt p.head 1)) (gapText (gapAt p.head 2)) p.ttl
+          ((clsPair p).map (·.1)) p.clsFirst (typeText p.ty) (rdataPart p r)) := by
   rw [clsPair_text]
   unfold renderRecord recordBody rdataPart tailText
   rw [ttlClassText_eq]
@@ -157,14 +201,19 @@ theorem parseLine_named (ctx : Ctx) (T : List UInt8) (hT : Starts T) (h36 : T.he
     (w : List UInt8) (k line : Nat)
     (hparse : ∀ rest, atFieldEnd rest = true →
       parseName ctx.origin ⟨T ++ rest, line, false⟩ = .ok (w, ⟨rest, line + k, false⟩))
-    (sep : List UInt8) (hne : sep ≠ []) (hsep : ∀ x ∈ sep, isWs x = true) (ttl : Option Nat)
+    (g0 gA gB : PGap) (q1 q2 q3 : Bool) (h0 : GapOK g0 false q1) (ttl : Option Nat)
     (cls : Option (List UInt8 × Nat)) (cf : Bool) (ht : ∀ t, ttl = some t → t ≤ 4294967295)
-    (hk : ∀ T k, cls = some (T, k) → ClassTextOK T k) (tyT : List UInt8) (ty : Nat) (hty : TypeTextOK tyT ty)
+    (hk : ∀ T k, cls = some (T, k) → ClassTextOK T k)
+    (hA : ttl.isSome = true ∨ cls.isSome = true → GapOK gA q1 q2)
+    (hB : ttl.isSome = true → cls.isSome = true → GapOK gB q2 q3)
+    (tyT : List UInt8) (ty : Nat) (hty : TypeTextOK tyT ty)
     (h10 : ty ≠ 10) (h41 : ty ≠ 41) (h250 : ty ≠ 250) (tv cv : Nat) (htv : ttlChoice ctx ttl = some tv)
     (hcv : clsChoice ctx (cls.map (·.2)) = some cv) (R0 : List UInt8) (hR0 : atFieldEnd R0 = true)
     (rd r : List UInt8) (line' : Nat)
-    (hrd : parseRdata ctx cv ty ⟨R0, line + k, false⟩ = .ok (rd, ⟨r, line', false⟩)) :
-    parseLine ctx ⟨T ++ (sep ++ recordBody sep ttl (cls.map (·.1)) cf tyT R0), line, false⟩ =
+    (hrd : parseRdata ctx cv ty
+      ⟨R0, line + k + gapLines g0 + tcLines (gapLines gA) (gapLines gB) ttl cls, tcEnd q1 q2 q3 ttl cls⟩ =
+        .ok (rd, ⟨r, line', false⟩)) :
+    parseLine ctx ⟨T ++ (gapText g0 ++ recordBody (gapText gA) (gapText gB) ttl (cls.map (·.1)) cf tyT R0), line, false⟩ =
       .ok ((some (.record line ⟨w, tv, cv, ty, rd⟩),
             { ctx with prevOwner := some w, prevTtl := some tv, prevClass := some cv }),
            ⟨r, line', false⟩) := by
@@ -173,11 +222,11 @@ theorem parseLine_named (ctx : Ctx) (T : List UInt8) (hT : Starts T) (h36 : T.he
     cases cls with
     | none => simp at hT
     | some ck => obtain ⟨cT, k⟩ := ck; simp at hT; subst hT; exact (hk cT k rfl).field
-  obtain ⟨c, t, hbody, hstart⟩ := recordBody_head sep ttl (cls.map (·.1)) cf tyT R0 hclsF hty.field
+  have hbodyS := recordBody_head (gapText gA) (gapText gB) ttl (cls.map (·.1)) cf tyT R0 hclsF hty.field
   obtain ⟨c0, t0, rfl, hc0⟩ := hT
   have h36' : (c0 == 36) = false := by simpa using h36
   have hc0ws : isWs c0 = false := fieldStart_not_ws hc0
-  have hname := hparse (sep ++ recordBody sep ttl (cls.map (·.1)) cf tyT R0) (atFieldEnd_sep sep _ hne hsep)
+  have hname := hparse (gapText g0 ++ recordBody (gapText gA) (gapText gB) ttl (cls.map (·.1)) cf tyT R0) (h0.atEnd _)
   unfold parseLine
   simp only [List.cons_append, h36', Bool.false_eq_true, ↓reduceIte]
   rw [parseRecordOrEmpty_eq]
@@ -192,11 +241,10 @@ theorem parseLine_named (ctx : Ctx) (T : List UInt8) (hT : Starts T) (h36 : T.he
   simp only [Bool.false_eq_true, ↓reduceIte, bind, P.bind, pName]
   simp only [List.cons_append] at hname
   simp only [hname]
-  have hskip := skipToNextField_gap .ExpectedTtlClassOrType sep hsep c t hstart (line + k) false
-  have htail := recordTail_eval ctx w line sep hne hsep ttl cls cf ht hk tyT ty hty h10 h41 h250 tv cv htv hcv
-    R0 hR0 rd r (line + k) line' hrd
-  rw [hbody] at htail ⊢
-  simp only [bind, P.bind, skip_nil _ c t hstart] at htail
+  have hskip := h0.skip .ExpectedTtlClassOrType _ hbodyS (line + k)
+  have htail := recordTail_eval ctx w line gA gB q1 q2 q3 ttl cls cf ht hk hA hB tyT ty hty h10 h41 h250 tv cv htv hcv
+    R0 hR0 rd r (line + k + gapLines g0) line' hrd
+  simp only [bind, P.bind, skipTo_nil _ _ hbodyS] at htail
   simp only [hskip]
   exact htail
 
@@ -209,7 +257,7 @@ theorem parseLine_record (ctx : Ctx) (hctx : CtxWF ctx) (p : PRecord) (hwf : WFR
         .ok ((some (.record sr.line ⟨sr.owner, sr.ttl, sr.cls, sr.ty, sr.rdata⟩), ctx'),
              ⟨r, line + recordLines p + 1, false⟩) ∧
       toSCtx ctx' = sc' := by
-  obtain ⟨hne, hsep, hown, httl, hcls, ⟨hty, h10, h41, h250⟩, hrdwf, ⟨S, hS0, hG, hT⟩⟩ := hwf
+  obtain ⟨hown, httl, hcls, ⟨hty, h10, h41, h250⟩, hrdwf, ⟨q1, q2, q3, S, h0, hsame, hA, hB, hS0, hG, hT⟩⟩ := hwf
   obtain ⟨owner, tv, cv, rd, howner, htv, hcv, hrdw, hkind, hgen, rfl, rfl⟩ := denoteRecord_some hden
   have htyOK := typeText_ok p.ty hty
   have hclsOK : ∀ T k, clsPair p = some (T, k) → ClassTextOK T k := by
@@ -234,15 +282,22 @@ theorem parseLine_record (ctx : Ctx) (hctx : CtxWF ctx) (p : PRecord) (hwf : WFR
     cases hp : p.cls with
     | some k => simpa [hp] using hcv
     | none => simpa [hp, toSCtx] using hcv
+  have hisS : (clsPair p).isSome = p.cls.isSome := by unfold clsPair; cases p.cls <;> rfl
+  have hA' : p.ttl.isSome = true ∨ (clsPair p).isSome = true → GapOK (gapAt p.head 1) q1 q2 := by rwa [hisS]
+  have hB' : p.ttl.isSome = true → (clsPair p).isSome = true → GapOK (gapAt p.head 2) q2 q3 := by rwa [hisS]
+  have hEnd : tcEnd q1 q2 q3 p.ttl (clsPair p) = tcEnd q1 q2 q3 p.ttl p.cls := by
+    unfold clsPair; cases p.ttl <;> cases p.cls <;> rfl
+  have hLines : ∀ a b, tcLines a b p.ttl (clsPair p) = ttlClassLines a b p.ttl p.cls := by
+    intro a b; unfold clsPair; cases p.ttl <;> cases p.cls <;> rfl
   have hR0 : atFieldEnd (rdataPart p r) = true := (hG 0 (by omega)).atEnd _
-  have hrd : ∀ l, parseRdata ctx cv p.ty.value ⟨rdataPart p r, l, false⟩ =
+  have hrd : ∀ l, parseRdata ctx cv p.ty.value ⟨rdataPart p r, l, tcEnd q1 q2 q3 p.ttl (clsPair p)⟩ =
       .ok (rd, ⟨r, l + (gapLines (gapAt p.gaps 0) + rdataLines (fun i => gapAt p.gaps (i + 1)) p.rdata +
         gapLines p.tail) + 1, false⟩) := fun l => by
     have := parseRdata_render ctx hctx cv p.ty.value h41 h250 (gapAt p.gaps) S p.tail p.comment p.crlf r p.rdata hG hT
       hrdwf hkind rd hrdw (fun g hg => validB_ok (hgen g hg)) l
     rw [hS0] at this
     unfold rdataPart
-    rw [this]
+    rw [hEnd, this]
     congr 3
     omega
   unfold ownerOf at howner
@@ -251,47 +306,45 @@ theorem parseLine_record (ctx : Ctx) (hctx : CtxWF ctx) (p : PRecord) (hwf : WFR
     cases hc : clsPair p with
     | none => simp [hc] at hT
     | some ck => obtain ⟨cT, k⟩ := ck; simp [hc] at hT; subst hT; exact (hclsOK cT k hc).field
-  obtain ⟨c, t, hbody, hstart⟩ := recordBody_head p.sep p.ttl ((clsPair p).map (·.1)) p.clsFirst (typeText p.ty)
-    (rdataPart p r) hclsF htyOK.field
-  have hcws := fieldStart_not_ws hstart
+  have hbodyS := recordBody_head (gapText (gapAt p.head 1)) (gapText (gapAt p.head 2)) p.ttl ((clsPair p).map (·.1))
+    p.clsFirst (typeText p.ty) (rdataPart p r) hclsF htyOK.field
   rw [renderRecord_eq]
   unfold recordLines
   cases hp : p.owner with
   | same =>
     simp only [hp, toSCtx] at howner
     simp only [ownerText, List.nil_append, ownerLines, Nat.zero_add]
-    -- the line starts with blanks: same owner as before
-    obtain ⟨x, sep', hsep'⟩ : ∃ x sep', p.sep = x :: sep' := by
-      cases hs : p.sep with
-      | nil => exact absurd hs hne
-      | cons x s => exact ⟨x, s, rfl⟩
-    have hx : isWs x = true := hsep x (by rw [hsep']; simp)
-    have hx36 : (x == 36) = false := by
-      simp only [isWs, Bool.or_eq_true, beq_iff_eq] at hx
-      rcases hx with rfl | rfl <;> decide
+    -- the line starts with a blank: same owner as before
+    obtain ⟨tb, g, hg0⟩ := hsame hp
     refine ⟨{ ctx with prevOwner := some owner, prevTtl := some tv, prevClass := some cv }, ?_, by simp [toSCtx]⟩
-    generalize hB : recordBody p.sep p.ttl ((clsPair p).map (·.1)) p.clsFirst (typeText p.ty)
-      (rdataPart p r) = B at hbody
-    have esep : p.sep ++ B = x :: (sep' ++ B) := by rw [hsep']; rfl
-    rw [esep]
+    generalize hB0 : recordBody (gapText (gapAt p.head 1)) (gapText (gapAt p.head 2)) p.ttl ((clsPair p).map (·.1))
+      p.clsFirst (typeText p.ty) (rdataPart p r) = B at hbodyS
+    obtain ⟨hd1, hd2, hd3⟩ := dropBlanks_facts (gapAt p.head 0) false
+    have hdrop := dropWhile_gap (gapAt p.head 0) h0.wf B hbodyS
+    have hx : isWs (if tb then 9 else 32) = true := by cases tb <;> decide
+    have hx36 : ((if tb then (9 : UInt8) else 32) == 36) = false := by cases tb <;> decide
+    have etext : gapText (gapAt p.head 0) ++ B = (if tb then 9 else 32) :: (gapText g ++ B) := by
+      rw [hg0]; simp [gapText, gapItemText]
+    rw [etext]
     unfold parseLine
     simp only [hx36, Bool.false_eq_true, ↓reduceIte]
     rw [parseRecordOrEmpty_eq]
-    have hskipws : skipWhitespace ⟨x :: (sep' ++ B), line, false⟩ = (true, ⟨B, line, false⟩) := by
+    have hskipws : skipWhitespace ⟨(if tb then 9 else 32) :: (gapText g ++ B), line, false⟩ =
+        (true, ⟨gapText (dropBlanks (gapAt p.head 0)) ++ B, line, false⟩) := by
       unfold skipWhitespace
       simp only [hx]
-      have := dropWhile_ws p.sep hsep c t hcws
-      rw [← hbody, esep] at this
-      rw [this]
+      rw [← etext, hdrop]
     simp only [hskipws]
-    simp only [hbody, fieldOrEol_at_field true c t hstart line false]
+    rw [fieldOrEol_gapG true (dropBlanks (gapAt p.head 0)) false q1 (hd3 h0.wf) (by rw [hd1]; exact h0.run) B hbodyS line]
     have hb : ((FieldOrEol.Field == FieldOrEol.Eol) = true) = False := by simp
     simp only [hb, ↓reduceIte]
     unfold parseRecordRest
     simp only [↓reduceIte, howner, bind, P.bind, pure, P.pure]
-    rw [← hbody, ← hB]
-    exact recordTail_eval ctx owner line p.sep hne hsep p.ttl (clsPair p) p.clsFirst httl hclsOK (typeText p.ty)
-      p.ty.value htyOK h10 h41 h250 tv cv htv' hcv' _ hR0 rd r line _ (hrd line)
+    rw [← hB0, hd2]
+    have := recordTail_eval ctx owner line (gapAt p.head 1) (gapAt p.head 2) q1 q2 q3 p.ttl (clsPair p) p.clsFirst httl
+      hclsOK hA' hB' (typeText p.ty) p.ty.value htyOK h10 h41 h250 tv cv htv' hcv' _ hR0 rd r
+      (line + gapLines (gapAt p.head 0)) _ (hrd _)
+    exact this.trans (by rw [hLines]; congr 3; omega)
   | named n =>
     simp only [hp, toSCtx] at howner
     obtain ⟨hnwf, hn36⟩ := hown n hp
@@ -300,9 +353,10 @@ theorem parseLine_record (ctx : Ctx) (hctx : CtxWF ctx) (p : PRecord) (hwf : WFR
     simp only [ownerText, ownerLines]
     have := parseLine_named ctx (nameText n) hnt.starts hn36 owner (nameLines n) line
       (fun rest hrest => hnt.parse rest line false hrest)
-      p.sep hne hsep p.ttl (clsPair p) p.clsFirst httl hclsOK (typeText p.ty) p.ty.value htyOK h10 h41 h250 tv cv
-      htv' hcv' _ hR0 rd r _ (hrd (line + nameLines n))
-    rw [this]
+      (gapAt p.head 0) (gapAt p.head 1) (gapAt p.head 2) q1 q2 q3 h0 p.ttl (clsPair p) p.clsFirst httl hclsOK hA' hB'
+      (typeText p.ty) p.ty.value htyOK h10 h41 h250 tv cv
+      htv' hcv' _ hR0 rd r _ (hrd _)
+    rw [this, hLines]
     congr 3
     omega
 
